@@ -184,15 +184,31 @@ C15_Holds(cs) ==
   /\ CodeToks(pv, 1, FALSE, <<>>) = CodeToks(pb, 1, FALSE, <<>>)
   /\ \E i \in DOMAIN pv : pv[i].c \in {"lc", "bc"}
 
+(* ------------------ C08: rendering twice (case blocks) ------------------ *)
+\* switch statements whose clauses are Case(..).Block(..) / Default().Block(..) with every small block,
+\* including Block() and Block(nil): rendering must not change what is rendered next
+BlockItemKinds == {"x", "nil", "null", "empty"}
+Clause(hd, kinds) == Stmt(<<hd, Grp("block", ItemsOf(kinds))>>)
+Heads == {Grp("case", <<Stmt(<<Id("k")>>)>>), Kw("default")}
+RepeatCase(hd, kinds, extra) ==
+  [kind |-> "c08", kinds |-> kinds,
+   tree |-> Stmt(<<Kw("func"), Id("f"), Grp("params", <<>>), Grp("block",
+              <<Stmt(<<Grp("switch", <<>>), Grp("block", <<Clause(hd, kinds)>> \o extra)>>)>>)>>)]
+RepeatCases == {RepeatCase(hd, kinds, extra) : hd \in Heads, kinds \in Seqs(BlockItemKinds, MaxArity),
+                extra \in {<<>>, <<Clause(Kw("default"), <<"x">>)>>}}
+\* on the model rendering is a function of the tree and the File: the same bytes every time (the heap is not mutated)
+C08_Holds(cs) == Raw(cs.tree) = Raw(cs.tree)
+
 (* ------------------------------ the run --------------------------------- *)
 \* Lists and dicts are grown one item / pair per step, so that every case is a state and the
 \* exploration is spread over TLC's workers; comment cases are initial states.
 CaseOf(st) == CASE st.u = "lists" -> ListCase(st.name, st.kinds)
                 [] st.u = "dicts" -> DictCase(st.pairs)
-                [] st.u = "comments" -> st.cs
+                [] st.u \in {"comments", "repeat"} -> st.cs
 Init == CASE Universe = "lists"    -> c \in {[u |-> "lists", name |-> n, kinds |-> <<>>] : n \in ListConstructs}
           [] Universe = "dicts"    -> c = [u |-> "dicts", pairs |-> <<>>]
           [] Universe = "comments" -> c \in {[u |-> "comments", cs |-> x] : x \in {y \in CmtCases : ValidCmt(y)}}
+          [] Universe = "repeat"   -> c \in {[u |-> "repeat", cs |-> x] : x \in RepeatCases}
 Next == \/ /\ c.u = "lists" /\ Len(c.kinds) < MaxArity
            /\ \E k \in ItemKinds : c' = [c EXCEPT !.kinds = Append(@, k)]
         \/ /\ c.u = "dicts" /\ Len(c.pairs) < MaxArity
@@ -204,6 +220,7 @@ Holds == LET cs == CaseOf(c) IN
          CASE cs.kind = "c13" -> C13_Holds(cs)
            [] cs.kind = "c16" -> C16_Holds(cs) /\ (~KnownF7(cs) /\ ~KnownF6b(cs) => C07_Holds(cs))
            [] cs.kind = "c15" -> C15_Holds(cs)
+           [] cs.kind = "c08" -> C08_Holds(cs)
 OutFile == "cases.ndjson"
 Emit == CSVWrite("%1$s", <<ToJson(CaseOf(c))>>, OutFile)
 =============================================================================
